@@ -6,7 +6,8 @@ SPEC = dict(
     proof_files=['Proofs/Rescale.v', 'Proofs/Ctrl.v', 'Drv/CtrlC01.v'],
     tie_vo=['Proofs/LeafTie.vo', 'Proofs/ConstsTie_basic.vo', 'Proofs/ConstsTie_clamp.vo', 'Proofs/ConstsTie_stall.vo', 'Proofs/LeafTie2_calcTarget.vo', 'Proofs/LeafTie2_DirectCycle.vo', 'Proofs/LeafTie2_PidCycle.vo', 'Proofs/LeafTie2_applyPwmMapping.vo', 'Proofs/LeafTie2_HwMonGetMinPwm.vo', 'Proofs/LeafTie2_HwMonGetMaxPwm.vo', 'Proofs/LeafTie2_HwMonGetRpmAvg.vo', 'Proofs/LeafTie2_HwMonSetRpmAvg.vo', 'Proofs/LeafTie2_HwMonShouldNeverStop.vo'],
     drivers=[dict(name='ctrl', drv_mod='Drv.CtrlC01', drv_file='Drv/CtrlC01.v', shard=100,
-                  args={'quick': ['n=600'], 'thorough': ['n=12000']}, timeout={'quick': 900, 'thorough': 6000})],
+                  extra_mods=[('Drv.CtrlC01Dev', 'Drv/CtrlC01Dev.v')],
+                  args={'quick': ['n=600'], 'thorough': ['n=4000']}, timeout={'quick': 900, 'thorough': 6000})],
     rule='seeded histories of 1..40 control cycles with interleaved RPM polls, external interference and device faults on real '
          'HwMonFan/FileFan/CmdFan objects driven through the real UpdateFanSpeed/measureRpm; generators random/stall/const/ext/fault; '
          'PWM maps identity/quantiser/sparse/monotone-sparse/plateau; algorithms direct, rate-limited, PID (default and random gains); '
